@@ -62,3 +62,50 @@ def m1(sv, a):
 
 def v1(sv, a):
     return sv.c['.'][a]
+
+
+# ---------------------------------------------------------------- ghost logs in clauses
+def seq_matches(c, ln_term, arr_term, seq):
+    """the (len, array) pair equals the PySeq `seq` elementwise"""
+    eng, ctx = c.eng, c.ctx
+    n = seq.length()
+    fl = seq.fixed_len()
+    if fl is not None:
+        return z3.And(ln_term == fl, *[arr_term[i] == eng.to_v(ctx, it) for i, it in enumerate(seq.items())])
+    p = z3.Int('sm_p')
+    return z3.And(ln_term == n, z3.ForAll([p], z3.Implies(z3.And(p >= 0, p < n), arr_term[p] == eng.seq_at(ctx, seq, p)),
+                                          patterns=[arr_term[p]]))
+
+
+def entry_is(c, log, idx, **fields):
+    """record `idx` of a log has the given fields (PySeq for 'seq' fields; fields left out are unconstrained)"""
+    parts = []
+    for f, v in fields.items():
+        k = log.ty.fields[f]
+        if k == 'seq':
+            parts.append(seq_matches(c, log.c[f + '#len'][idx], log.c[f + '#arr'][idx], c.eng.as_seq(c.ctx, v)))
+        else:
+            t = v.t if isinstance(v, S) else (v if isinstance(v, z3.ExprRef) else c.eng.to_v(c.ctx, v))
+            parts.append(log.c[f][idx] == t)
+    return z3.And(*parts)
+
+
+def log_grew(pre_log, post_log, k):
+    """post has exactly k more records than pre, the earlier ones untouched"""
+    i = z3.Int('lg_i')
+    parts = [post_log.c['len'] == pre_log.c['len'] + k]
+    same = []
+    for n in pre_log.c:
+        if n == 'len':
+            continue
+        same.append(post_log.c[n][i] == pre_log.c[n][i])
+    parts.append(z3.ForAll([i], z3.Implies(z3.And(i >= 0, i < pre_log.c['len']), z3.And(*same))))
+    return z3.And(*parts)
+
+
+def drop_last_matches(c, ln_term, arr_term, seq):
+    """(len, array) equals seq[:-1]"""
+    n = seq.length()
+    p = z3.Int('dl_p')
+    m = z3.If(n >= 1, n - 1, 0)
+    return z3.And(ln_term == m, z3.ForAll([p], z3.Implies(z3.And(p >= 0, p < m), arr_term[p] == c.eng.seq_at(c.ctx, seq, p))))
